@@ -34,7 +34,9 @@ def check(run, model, tier):
     queues.check_dispatch_sites(run, model, 'CONSUMER.next_rtc', E)
     # the queue an active object substitutes for the plain deque must itself behave like one (same ends, same order, overflow gives up the newest fifo event)
     run.rule('ENDS.locking', 'LockingDeque forwards append/appendleft/pop/popleft to the deque: same end, once, and the deque operations of every path leave the content a deque would have')
-    queues.check_locking_deque(run, model, 'ENDS.locking', None, None)
+    run.rule('BOUND.buffers', 'every deque of the package is bounded by the object\'s own class constant, and a token queue has the capacity of the deque it mirrors')
+    queues.check_locking_deque(run, model, 'ENDS.locking', None, 'BOUND.buffers')
+    queues.check_bounds(run, model, 'BOUND.buffers')
     cg = callgraph(model)
     hq = model.cls('HsmWithQueues')
     disp = set()
